@@ -100,22 +100,33 @@ struct Action
   int delayMs = 0;
 };
 
+// kinds 1-26 are deterministic framing violations for the unchanged client (read off
+// HttpClient::parseHeaderBlock / determineFraming / advanceChunked and confirmed by the regression
+// `malformed_status_line_not_retried` on /repo); kinds 27-28 are status lines a strict reader
+// rejects but this client accepts - no verdict, the outcome is only recorded (labels).
 const char *malformedName(int m)
 {
   static const char *n[] = {"-", "bad status line", "HTTP/2.0", "status '2x0'", "header without colon", "obs-fold",
                             "Content-Length: abc", "Content-Length: 5, 6", "two different Content-Length",
                             "Content-Length and Transfer-Encoding", "chunk-size 'zz'", "chunk-size '5 x'",
-                            "chunk data without CRLF", "Content-Length 99999999999999999999"};
+                            "chunk data without CRLF", "Content-Length 99999999999999999999",
+                            "version HTTP/1.10", "version HTTP/1", "version HTTP/1.x", "version HTTP/11", "version HTTP/1.1.1",
+                            "version http/1.1", "version HTTP1.1 (no slash)", "two spaces before the status code",
+                            "leading space", "status code 2000", "status code +200", "empty version 'HTTP/ 200'",
+                            "HTAB instead of SP after the version",
+                            "lenient: status code 20", "lenient: two spaces after the status code"};
   return n[m];
 }
-constexpr int kMalformedKinds = 13;
+constexpr int kMalformedKinds = 28;
+constexpr int kFirstLenientKind = 27;
+inline bool statusLineKind(int m) { return (m >= 1 && m <= 3) || (m >= 14 && m < kFirstLenientKind); }
 
 // Is response kind `m` a framing violation for a request with this method? (HEAD and
 // bodyless statuses are framed without looking at the length fields.)
 bool malformedApplies(int m, const std::string &method, const RespSpec &s)
 {
-  if (m == 0) return false;
-  if (m <= 5 || m == 8) return true; // status line / header syntax / conflicting duplicate: always
+  if (m == 0 || m >= kFirstLenientKind) return false;
+  if (m <= 5 || m == 8 || statusLineKind(m)) return true; // status line / header syntax / conflicting duplicate: always
   bool bodyless = method == "HEAD" || s.framing == NoContent204 || s.framing == NotModified304;
   return !bodyless;
 }
@@ -156,6 +167,28 @@ Rendered render(const RespSpec &s, const std::string &method, const std::string 
   if (s.malformed == 1) statusLine = "HTP/1.1 " + std::to_string(status) + " Scripted";
   if (s.malformed == 2) statusLine = "HTTP/2.0 " + std::to_string(status) + " Scripted";
   if (s.malformed == 3) statusLine = ver + " 2x0 Scripted";
+  {
+    const std::string code = std::to_string(status), tail = " " + code + " Scripted";
+    switch (s.malformed)
+    {
+    case 14: statusLine = "HTTP/1.10" + tail; break;
+    case 15: statusLine = "HTTP/1" + tail; break;
+    case 16: statusLine = "HTTP/1.x" + tail; break;
+    case 17: statusLine = "HTTP/11" + tail; break;
+    case 18: statusLine = "HTTP/1.1.1" + tail; break;
+    case 19: statusLine = "http/1.1" + tail; break;
+    case 20: statusLine = "HTTP1.1" + tail; break;
+    case 21: statusLine = ver + " " + tail; break;
+    case 22: statusLine = " " + ver + tail; break;
+    case 23: statusLine = ver + " 2000 Scripted"; break;
+    case 24: statusLine = ver + " +" + code + " Scripted"; break;
+    case 25: statusLine = "HTTP/" + tail; break;
+    case 26: statusLine = ver + "\t" + code + " Scripted"; break;
+    case 27: statusLine = ver + " 20 Scripted"; break;
+    case 28: statusLine = ver + " " + code + "  Scripted"; break;
+    default: break;
+    }
+  }
   out += statusLine + "\r\n";
   out += "X-Token: " + tok + "\r\n";
   if (s.malformed == 4) out += "this line has no colon\r\n";
@@ -275,6 +308,8 @@ struct Exchange
   bool responseWritten = false; // every octet the script wanted was written
   bool responseComplete = false; // ... and that was the complete response (no cut)
   bool acceptableToPeer = false; // the peer may legitimately take what was written for a complete response
+  int malformedKind = 0;         // script entry's malformed kind (0 = none)
+  bool anyStatus = false;        // lenient status line: whatever status the peer reports is fine
   bool framingErrorDelivered = false;
   bool wellFormedDelivered = false;
   int statusSent = 0;
@@ -539,6 +574,8 @@ private:
         wrote = w == j;
       }
       ex.statusSent = r.status;
+      ex.malformedKind = a.resp.malformed;
+      ex.anyStatus = a.resp.malformed >= kFirstLenientKind;
     }
     bool complete = a.respond && wrote && j >= r.surplusFrom; // the whole message (surplus may be cut)
     // going silent after a complete answer is just an idle persistent connection
@@ -928,13 +965,24 @@ void execute(const Plan &plan, pbt::Case &c)
                                                      << " times with a retry budget of " << l.budget << ":" << hist.str());
     if (it != byTok.end())
     {
-      // a delivered framing violation ends the request. Sound only when no attempt of this call
-      // can have ended by a time-out: the whole call took less than one receive time-out.
+      // A malformed response that the script delivered completely (deterministic by construction: the
+      // same octets would come back every time) ends the request: no further exchange may follow,
+      // whatever exception type the caller got to see. Sound only when no attempt of this call can
+      // have ended by a time-out: the whole call took less than one receive time-out.
       for (std::size_t a = 0; a + 1 < it->second.size(); ++a)
         if (it->second[a]->framingErrorDelivered && o.ms < plan.requestTimeoutMs)
-          c.fail("C17/framing-error-retried", pbt::Fmt() << l.method << " " << l.token << ": attempt " << a
-                                                         << " was answered with a deterministic framing violation, yet another attempt followed:"
-                                                         << hist.str());
+          c.fail("C17/framing-error-retried",
+                 pbt::Fmt() << l.method << " " << l.token << " (budget " << l.budget << "): attempt " << a
+                            << " was answered with a deterministic framing violation (" << malformedName(it->second[a]->malformedKind)
+                            << "), yet " << it->second.size() - a - 1 << " more attempt(s) followed; caller saw "
+                            << (o.returned ? "a response" : o.errKind + " '" + o.errWhat + "'") << ":" << hist.str());
+      for (auto *ex : it->second)
+      {
+        if (ex->framingErrorDelivered && statusLineKind(ex->malformedKind)) c.label("fault: malformed status line delivered");
+        if (ex->malformedKind >= kFirstLenientKind && ex->responseComplete)
+          c.label(pbt::Fmt() << malformedName(ex->malformedKind) << " -> " << (o.returned ? "accepted, status " + std::to_string(o.status) : "rejected (" + o.errKind + ")")
+                             << ", " << it->second.size() << " attempt(s)");
+      }
       for (auto *ex : it->second)
       {
         if (ex->k == ex->total && !ex->requestProblem.empty())
@@ -959,7 +1007,7 @@ void execute(const Plan &plan, pbt::Case &c)
       bool found = false;
       if (it != byTok.end())
         for (auto *ex : it->second)
-          if (ex->acceptableToPeer && ex->statusSent == o.status) found = true;
+          if (ex->acceptableToPeer && (ex->statusSent == o.status || ex->anyStatus)) found = true;
       if (!found)
         c.fail("C17/response-from-nowhere", pbt::Fmt() << l.method << " " << l.token << " returned status " << o.status
                                                        << " but no complete response with that status was written for it:" << hist.str());
@@ -1160,6 +1208,25 @@ PBT_REGRESSION(framing_error_not_retried)
   p.script = {bad, ok(), ok()};
   execute(p, c);
 }
+// every malformed status line (incl. version tokens that are not HTTP/D.D) is a deterministic
+// framing error: one attempt, although GET with budget 2 could be retried (seeded change C17-E)
+PBT_REGRESSION(malformed_status_line_not_retried)
+{
+  Plan p;
+  p.requestTimeoutMs = 2500;
+  for (int kind : {14, 15, 16, 17, 18, 19, 20, 21, 22, 23, 24, 25, 26, 1, 2, 3})
+  {
+    p.reqs.push_back(L(kind % 2 ? "GET" : "PUT", 2, ""));
+    p.reqs.back().token = "m" + std::to_string(kind);
+    if (p.reqs.back().method == "PUT") p.reqs.back().bodySize = 4;
+    Action bad;
+    bad.resp.malformed = kind;
+    bad.resp.bodySize = 12;
+    p.script.push_back(bad);
+  }
+  execute(p, c);
+}
+
 PBT_REGRESSION(no_reuse_after_close_signal_and_surplus)
 {
   Plan p;
